@@ -224,12 +224,15 @@ End Crypto.
     every method computes its answer from (version, key, workchain, ids) alone and
     hands out fresh values, so what a caller does to a returned value cannot
     reach later answers.  [wop] are the calls of a history; [OMutate c] is the
-    caller overwriting, in place, the state-init it was handed last with c. *)
+    caller overwriting, in place, the state-init it was handed last with c;
+    [ORekey pk] is the caller reusing the private-key buffer it gave to New (New
+    took the public key by value: key.Public() copies). *)
 Inductive wop :=
 | OStateInit                 (* w.StateInit() *)
 | OMutate (c : cell)         (* *si = ...  on the value returned last *)
 | OAddress                   (* w.GetAddress() *)
-| ONext (a : acct).          (* NextMessageParams(state) / the init Send attaches *)
+| ONext (a : acct)           (* NextMessageParams(state) / the init Send attaches *)
+| ORekey (pk : bits).        (* the caller overwrites the key buffer it passed to New (its public half becomes pk) *)
 
 Inductive wans :=
 | AInit (r : res cell) | ADone | AAddr (r : res (Z * bytes)) | ANextP (r : res (N * option cell)).
@@ -241,6 +244,7 @@ Definition fresh_answer (w : wallet) (op : wop) : wans :=
   | OMutate _ => ADone
   | OAddress => AAddr (address w)
   | ONext a => ANextP (next_params w a)
+  | ORekey _ => ADone
   end.
 
 (* an object design: what the object keeps between calls and how a call uses it *)
